@@ -1,9 +1,9 @@
 """C19 SMP workers share cache entries consistently.
 
-Each harness worker keeps two SMP proxy instances (started on first use): 2 squid workers with cache_mem 0 + rock
-(every cross-worker hit goes through the shared rock map and the disker) and 3 squid workers with a shared memory
-cache + rock.  Every squid worker has its own http_port (`if ${process_number} = i`), so the scenario chooses the
-worker per request.  A scenario (fresh URL namespace) is a history of GET / forced refresh / PURGE / probe /
+Each harness worker keeps one SMP proxy instance (started on first use): 3 squid workers, a shared memory cache
+(objects up to 64 KB = two shared pages) and a rock cache_dir with a disker (larger objects are shared only through
+rock).  Every squid worker has its own http_port (`if ${process_number} = i`), so the scenario chooses the worker
+per request; a scenario uses the first 2 or all 3 workers.  A scenario (fresh URL namespace) is a history of GET / forced refresh / PURGE / probe /
 race(refresh through one worker while another reads) operations on a few URLs.
 Oracle: (a) every complete 200 equals one origin version of that URL; (b) once a store through worker i is
 confirmed (only-if-cached on i returns its exact bytes), only-if-cached on every other worker returns the same
@@ -20,7 +20,9 @@ from vlib.e2e import diskstore as ds
 from vlib.e2e_runner import Result
 
 ROCK = "rock {run}/rock 16 slot-size=4096 max-size=1048576"
-CONFIGS = {2: {"cache_mem": "0"}, 3: {"cache_mem": "16 MB"}}
+SQUID_WORKERS = 3
+# objects up to 64 KB (two 32 KB shared-memory pages) are shared through the memory cache, larger ones only through rock
+CONF = "maximum_object_size_in_memory 64 KB\n"
 SIZES = st.one_of(st.sampled_from([40000, 100, 4000, 4200, 20000, 32000, 32768, 33000, 66000, 150000]), st.integers(0, 70000))
 
 
@@ -49,14 +51,14 @@ def teardown(env):
     env.close()
 
 
-def _instance(env, nw):
+def _instance(env, nw=0):
     sq = env.instances.get(nw)
     if sq is not None and sq.alive():
         return sq
     if sq is not None:
         env.discard(sq)
         env.instances.pop(nw, None)
-    sq = env.new_squid(ROCK, cache_mem=CONFIGS[nw]["cache_mem"], workers=nw, ports=nw, timeout=180)
+    sq = env.new_squid(ROCK, conf=CONF, cache_mem="16 MB", workers=SQUID_WORKERS, ports=SQUID_WORKERS, timeout=180)
     if not ds.wait_finished_rebuilding(sq, 120):
         env.discard(sq)
         return None
@@ -93,7 +95,7 @@ def execute(env, sc):
     r = Result()
     nw = sc["nw"]
     try:
-        sq = _instance(env, nw)
+        sq = _instance(env)
     except Exception as e:
         sq = None
         ds.trace("C19 instance start failed: %s" % str(e)[:300])
@@ -105,7 +107,7 @@ def execute(env, sc):
         _run(env, sc, sq, r, nw)
     except OSError:
         r.inconclusive = "socket error"
-    _health(env, sq, nw, r)
+    _health(env, sq, 0, r)
     return r
 
 
@@ -146,7 +148,7 @@ def _run(env, sc, sq, r, nw):
     def probe_all(u, what):
         """only-if-cached on every worker -> {worker: version or None(miss/unjudged)}"""
         out = {}
-        for w in range(nw):
+        for w in range(SQUID_WORKERS):
             m = ds.oic(env, ports[w], content.path(u), timeout=10)
             out[w] = judge_complete(u, m, "%s: only-if-cached via worker %d" % (what, w)) if ds.judged(m) and m.status == 200 else None
             if ds.judged(m) and m.status == 200 and out[w] is None:
@@ -193,7 +195,7 @@ def _run(env, sc, sq, r, nw):
             if ds.judged(c) and c.status == 200 and c.complete and _classify(content, u, c.body) == ver and content.arrivals(u) == after:
                 s["cur"] = ver
                 r.label("store-confirmed")
-                for x in range(nw):
+                for x in range(SQUID_WORKERS):
                     if x == w:
                         continue
                     o = ds.oic(env, ports[x], path, timeout=10)
@@ -219,7 +221,7 @@ def _run(env, sc, sq, r, nw):
             if m.status == 200:
                 s.update(cur=None, purged=True, fetcher=None)
                 r.label("purge-acknowledged")
-                for x in range(nw):
+                for x in range(SQUID_WORKERS):
                     o = ds.oic(env, ports[x], path, timeout=10)
                     checks += 1
                     if ds.judged(o) and o.status == 200:
@@ -229,7 +231,7 @@ def _run(env, sc, sq, r, nw):
                 s.update(cur=None)
         elif kind == "probe":
             res = probe_all(u, "op %d probe" % i)
-            checks += nw
+            checks += SQUID_WORKERS
             vs = set(v for v in res.values() if v is not None and v >= 0)
             if s["cur"] is not None:
                 for x, v in res.items():
@@ -279,7 +281,7 @@ def _run(env, sc, sq, r, nw):
                 vs2 = set(v for v in second.values() if v is not None and v >= 0)
                 if len(vs2) > 1:
                     r.fail("workers-hold-different-versions-after-quiescence", "op %d: only-if-cached per worker: %s then %s" % (i, first, second))
-            checks += nw
+            checks += SQUID_WORKERS
     r.sub_evaluations = max(1, checks)
     if cross_hits_big:
         r.label("multi-page-hit-on-other-worker")
